@@ -120,6 +120,34 @@ def configure_if_needed():
 STAMP = os.path.join(BUILD, "build.stamp")
 
 
+def _relink_if_stale():
+    """automake leaves libraries that reach squid_LDADD through a variable (e.g. $(ADAPTATION_LIBS) =
+    adaptation/libadaptation.la) out of squid_DEPENDENCIES, so a change confined to such a library rebuilds the archive
+    but not the proxy binary.  Force the link when any convenience archive is newer than the binary."""
+    binary = os.path.join(OBJ, "src", "squid")
+    try:
+        t = os.path.getmtime(binary)
+    except OSError:
+        return
+    newer = None
+    for top in (os.path.join(OBJ, "src"), os.path.join(OBJ, "lib"), os.path.join(OBJ, "compat")):
+        for d, _dirs, files in os.walk(top):
+            if os.path.basename(d) != ".libs":
+                continue
+            for f in files:
+                if f.endswith(".a") and os.path.getmtime(os.path.join(d, f)) > t:
+                    newer = os.path.join(d, f)
+                    break
+            if newer:
+                break
+        if newer:
+            break
+    if newer:
+        log("[build] %s is newer than the proxy binary: relinking" % os.path.relpath(newer, OBJ))
+        os.unlink(binary)
+        _run(["make", "-j%d" % NCPU, "all"], OBJ, "make-relink.log")
+
+
 def ensure_build(need_proxy=True):
     """Sync the mirror and bring the out-of-tree build up to date. Returns the squid binary path."""
     with Lock():
@@ -138,6 +166,7 @@ def ensure_build(need_proxy=True):
             if os.path.exists(STAMP):
                 os.unlink(STAMP)
             _run(["make", "-j%d" % NCPU, "all"], OBJ, "make.log")
+            _relink_if_stale()
             with open(STAMP, "w") as f:
                 f.write(str(time.time()))
             log("[build] done in %.0f s" % (time.time() - t0))
